@@ -194,6 +194,7 @@ func runC03(c *kit.Ctx) {
 	// ---- R1 ---------------------------------------------------------------
 	c.StartRule("R1", "single failure transition under failOnce", 4)
 	noBlockingWhileLocked(c, true, [3]string{"region", "client", "fail"})
+	connectionClosedWhicheverComesFirst(c)
 	failureTransition(c)
 
 	// ---- R2 ---------------------------------------------------------------
@@ -526,6 +527,14 @@ func runC03(c *kit.Ctx) {
 			}
 			if g, ok := in.(*ssa.Go); ok && kit.CalleeName(g) == kit.M("region", "*client", "receiveRPCs") {
 				return true
+			}
+			// an exit in the arm that saw c.done closed: the client has failed already (only fail closes done)
+			if _, isRet := in.(*ssa.Return); isRet {
+				for _, st := range selectArmsAt(in.Block()) {
+					if st.Dir == types.RecvOnly && isLoadOfField(st.Chan, doneF) {
+						return true
+					}
+				}
 			}
 			return false
 		}})
